@@ -121,7 +121,7 @@ def gen_search(rng):
 def run(ctx):
     check_lm(ctx)
     for _ in range(ctx.budget(3000, 120000)):
-        check_search(ctx, gen_search(ctx.rng))
+        ctx.guard(check_search, gen_search(ctx.rng))
     if ctx.tier == "thorough" and ctx.scale == 1:
         pats = ["A", "AC", "A(N)C", "(A)N*C", "(A)N*?C", "N*A", "(N*)(A)", "A*C*?", "(AN)(N*)G", "R(Y*)A"]
         for L in range(1, 7):
@@ -129,13 +129,13 @@ def run(ctx):
                 wd = "".join(t)
                 for pat in pats:
                     for kind, linear in (("seq", True), ("seq", False), ("circrec", True)):
-                        check_search(ctx, {"pat": pat, "word": wd, "kind": kind, "linear": linear, "pos": 0,
+                        ctx.guard(check_search, {"pat": pat, "word": wd, "kind": kind, "linear": linear, "pos": 0,
                                            "endpos": None})
         ctx.extra["cov_small_grammar_exhaustive"] = "10 patterns x all targets <= 6 over {A,C,G} x 3 modes"
 
 
 def check_case(ctx, case):
     if "pat" in case:
-        check_search(ctx, case)
+        ctx.guard(check_search, case)
     else:
         check_lm(ctx)
